@@ -135,3 +135,31 @@ Proof.
   rewrite (recognise_in_recognise_u s f Hv Hr) in Hf'. injection Hf' as <-.
   rewrite Hval, Hw, Hrep in Hbad. discriminate.
 Qed.
+
+(** on the strict grammar: accepted exactly for valid, consistent, representable fields *)
+Theorem reader_accepts_iff_on_grammar s f : utf8_valid s = true -> blen s <= u64_max -> recognise s = Some f ->
+  ((exists z, parse_from_rfc2822 s = Val (POk z)) <->
+   (valid f = true /\ weekday_ok f = true /\ representable f = true)).
+Proof.
+  intros Hv Hl Hr. split.
+  - intros (z & Hz). destruct (reader_sound s z Hv Hl Hz) as (f' & Hf' & Hval & Hw & Hrep & _).
+    rewrite (recognise_in_recognise_u s f Hv Hr) in Hf'. injection Hf' as <-. auto.
+  - intros (Hval & Hw & Hrep). pose proof (reader_complete s f Hv Hl Hr Hval Hw Hrep) as Hc.
+    destruct (V.Proofs.C11Total.parse_from_rfc2822_never_panics s Hv Hl) as (r & Hp).
+    destruct r as [z|e]; [exists z; exact Hp|].
+    exfalso. unfold r2_parse in Hc. rewrite Hp in Hc. cbn [val_of_R val_of_presult] in Hc.
+    unfold enc5 in Hc. destruct (denote f) as [[[[y o] sd] fr] of_]. discriminate.
+Qed.
+
+(** the strings on which the reader and the strict grammar differ exist: white space that RFC 2822
+    does not list (here a bare LF after the comma and a no-break space U+00A0 before the time) is
+    accepted where the standard form has a space *)
+Definition lenient_example : bytes := B"Tue," ++ [10] ++ B"1 Jul 2003" ++ [194; 160] ++ B"10:52:37 +0200".
+Example lenient_witness :
+  utf8_valid lenient_example = true /\ recognise lenient_example = None /\
+  (exists f, recognise_u lenient_example = Some f /\ valid f = true /\ weekday_ok f = true /\ representable f = true) /\
+  r2_parse lenient_example = VTup [VInt 2003; VInt 182; VInt 31957; VInt 0; VInt 7200].
+Proof.
+  split; [vm_compute; reflexivity|]. split; [vm_compute; reflexivity|]. split; [|vm_compute; reflexivity].
+  eexists. split; [vm_compute; reflexivity|]. repeat split; vm_compute; reflexivity.
+Qed.
